@@ -912,6 +912,16 @@ pub fn judge_text(text: &str) -> Judged {
         De::Err(e) => return Judged::Err(first_words(&e, 3)),
         De::Ok(c) => c,
     };
+    // "wrong version" is one of the corruptions the property lists: a text whose outer envelope
+    // carries an integer version other than the one the library itself writes must be rejected
+    if let Ok(J::Object(o)) = serde_json::from_str::<J>(text) {
+        if let Some(v) = o.get("version") {
+            let current = ser(&c).ok().and_then(|s| serde_json::from_str::<J>(&s).ok()).and_then(|j| j["version"].as_u64());
+            if (v.is_u64() || v.is_i64()) && current.is_some() && v.as_u64() != current {
+                return Judged::Fail("wrong-version-accepted".into(), format!("from_str accepted a context whose envelope says version {} (the library writes {})", v, current.unwrap()));
+            }
+        }
+    }
     let s = match ser(&c) {
         Ok(s) => s,
         Err(e) => return Judged::Fail("accepted-not-serializable".into(), e),
